@@ -53,7 +53,9 @@ def localFirst : List String → Bool
   | [] => true
   | e :: es => (if e.startsWith "P" then es.all (fun x => !x.startsWith "D") else true) && localFirst es
 
-def specDial (slots : List Slot) (envs : List Env) (h alpn out tried got : String) : Option String :=
+/-- `full = false` (visitor whose own context is, or may be, done: outside the property's quantifier):
+only the safety half is judged — who was dialled, in which order, and what a handed-out connection is. -/
+def specDial (slots : List Slot) (envs : List Env) (h alpn out tried got : String) (full : Bool := true) : Option String :=
   let se := slots.zip envs
   let evs := if tried = "-" then [] else tried.splitOn ","
   let anyRoute := slots.any isRoute
@@ -70,6 +72,7 @@ def specDial (slots : List Slot) (envs : List Env) (h alpn out tried got : Strin
       else if got ≠ gotOf slots h alpn k then some s!"client did not receive H's link (want {gotOf slots h alpn k})"
       else if !((se[k]?).map (fun p => reachable p.1 p.2)).getD false then some "found through an unreachable route"
       else none
+  else if !full then none
   else if slots.all (· == .empty) then
     (if out = "notfound" then none else some "H has no routes: want notfound")
   else if anyReach then some "a published client is reachable: want found"
@@ -82,7 +85,11 @@ def specDial (slots : List Slot) (envs : List Env) (h alpn out tried got : Strin
   else if out = "notfound" || out = "lookupfailed" then none
   else some "H has no routes (no lookup returned one): want notfound"
 
-def step (_ : Unit) (toks : List String) (rhs : String) : Unit × Verdict :=
+def parseVisitor (s : String) : Option Visitor :=
+  if s = "l" then some .live else if s = "g" then some .gone else if s = "t" then some .leavesInLookup else none
+
+/-- lines that do not touch the modelled route cache -/
+def stepPure (toks : List String) (rhs : String) : Unit × Verdict :=
   match toks with
   | ["dial", h, alpn, s0, s1, s2, e0, e1, e2, _cls] =>
     match [s0, s1, s2].mapM parseSlot, [e0, e1, e2].mapM parseEnv, rhs.splitOn " " with
@@ -136,6 +143,27 @@ def step (_ : Unit) (toks : List String) (rhs : String) : Unit × Verdict :=
     | _, _, _ => ((), .bad "e2e args")
   | _ => ((), .bad "unknown op")
 
-def main : IO Unit := runLoop () step
+/-- `visit`: one `DialClient` of a sequence against the same server (route cache = driver state).
+The spec oracle is stateless: it judges the line from what the KV holds for H and how the world answers
+dials NOW — whatever earlier visitors did, a live visitor of a hostname with a reachable published
+client must be connected, one of a hostname with unreachable routes is told not-connected, etc. -/
+def step (c : Cache) (toks : List String) (rhs : String) : Cache × Verdict :=
+  match toks with
+  | ["reset"] => ([], .ok)
+  | ["visit", h, alpn, s0, s1, s2, e0, e1, e2, vis, _cls] =>
+    match [s0, s1, s2].mapM parseSlot, [e0, e1, e2].mapM parseEnv, parseVisitor vis, rhs.splitOn " " with
+    | some slots, some envs, some v, [out, tried, closed, got, kv] =>
+      let envf : Nat → Env := fun i => envs[i]?.getD ⟨.err, false, none, false⟩
+      let (c', o) := visit c ⟨h, slots, envf, v⟩
+      let r := o.result
+      let mgot := match r.outcome with | .found k => gotOf slots h alpn k | _ => "-"
+      let m := s!"{outcomeStr r.outcome} {joinOrDash (r.tried.map (peerOf slots))} {joinOrDash (r.closed.map toString)} {mgot} kv={o.kvGets}"
+      match specDial slots envs h alpn out tried got (v == .live) with
+      | some why => (c', .spec why)
+      | none => if m ≠ s!"{out} {tried} {closed} {got} {kv}" then (c', .diff m) else (c', .ok)
+    | _, _, _, _ => (c, .bad "visit args")
+  | _ => (c, (stepPure toks rhs).2)
+
+def main : IO Unit := runLoop ([] : Cache) step
 
 end Specter.C27
